@@ -94,6 +94,8 @@ static void do_ep(vf_case *c) {
 #if defined(EP_ENDOM)
 	if (ep_curve_is_endom()) {
 		mpz_t beta, lam, s3; mpz_inits(beta, lam, s3, NULL); vf_fp_get(beta, ctx->beta);
+		if (!mpz_sgn(RC.b) && mpz_sgn(RC.a)) { /* y^2 = x^3 + a x (j = 1728, the KSS16 family): the endomorphism is (x, y) -> (-x, i y); i must exist in both fields */
+			OBL(mpz_fdiv_ui(RC.p, 4) == 1 && mpz_fdiv_ui(RN, 4) == 1, "%s: endomorphism: -1 is not a square modulo p and r on a curve y^2 = x^3 + a x", who); vf_stat_add("x.j1728_endomorphism_lattice_not_judged", 1); goto endo_done; }
 		mpz_powm_ui(t, beta, 3, RC.p); OBL(!mpz_cmp_ui(t, 1) && mpz_cmp_ui(beta, 1), "%s: endomorphism: beta is not a primitive cube root of unity", who);
 		OBL(!mpz_sgn(RC.a), "%s: endomorphism: flagged on a curve with a != 0", who);
 		/* lambda = (-1 +- sqrt(-3)) / 2 mod r; pick the one with psi(G) = [lambda]G */
@@ -111,13 +113,13 @@ static void do_ep(vf_case *c) {
 					if (th) vf_fail(NULL, "%s: lattice: bn_rec_glv raised", who); else { vf_bn_get(A, k0); vf_bn_get(B, k1); mpz_mul(t, B, lam); mpz_add(t, t, A); mpz_sub(t, t, K); mpz_mod(t, t, RN);
 						OBL(!mpz_sgn(t), "%s: lattice: k0 + k1 lambda != k (mod r) for k = %s", who, ks[i]); OBL(mpz_sizeinbase(A, 2) <= half && mpz_sizeinbase(B, 2) <= half, "%s: lattice: sub-scalars are longer than half of r for k = %s", who, ks[i]); }
 					mpz_clears(K, A, B, NULL); } } }
-		mpz_clears(beta, lam, s3, NULL);
+		endo_done: mpz_clears(beta, lam, s3, NULL);
 	}
 #endif
 #if defined(WITH_PP) && FP_PRIME != 255
 	if (ep_curve_is_pairf()) {
 		mpz_t X, P4; mpz_inits(X, P4, NULL); check_family_param(who, X);
-		int k = ep_curve_embed(); OBL(k == 12, "%s: pairing: embedding degree %d not handled by this harness", who, k);
+		int k = ep_curve_embed();
 		/* family polynomials */
 		if (ep_curve_is_pairf() == EP_BN) { mpz_t x2, x3, x4; mpz_inits(x2, x3, x4, NULL); mpz_mul(x2, X, X); mpz_mul(x3, x2, X); mpz_mul(x4, x3, X);
 			mpz_mul_ui(t, x4, 36); mpz_mul_ui(u, x3, 36); mpz_add(t, t, u); mpz_mul_ui(u, x2, 24); mpz_add(t, t, u); mpz_mul_ui(u, X, 6); mpz_add(t, t, u); mpz_add_ui(t, t, 1); OBL(!mpz_cmp(t, RC.p), "%s: family: p != 36x^4 + 36x^3 + 24x^2 + 6x + 1", who);
@@ -125,10 +127,15 @@ static void do_ep(vf_case *c) {
 		else if (ep_curve_is_pairf() == EP_B12) { mpz_t x2, x4; mpz_inits(x2, x4, NULL); mpz_mul(x2, X, X); mpz_mul(x4, x2, x2); mpz_sub(t, x4, x2); mpz_add_ui(t, t, 1); OBL(!mpz_cmp(t, RN), "%s: family: r != x^4 - x^2 + 1", who);
 			mpz_sub_ui(u, X, 1); mpz_mul(u, u, u); mpz_mul(t, t, u); OBL(mpz_divisible_ui_p(t, 3), "%s: family: (x-1)^2 (x^4 - x^2 + 1) not divisible by 3", who); mpz_divexact_ui(t, t, 3); mpz_add(t, t, X); OBL(!mpz_cmp(t, RC.p), "%s: family: p != (x-1)^2 (x^4 - x^2 + 1)/3 + x", who); mpz_clears(x2, x4, NULL); }
 		/* embedding degree */
-		mpz_powm_ui(P4, RC.p, 4, RN); mpz_powm_ui(t, RC.p, 2, RN); mpz_sub(u, P4, t); mpz_add_ui(u, u, 1); mpz_mod(u, u, RN); OBL(!mpz_sgn(u), "%s: pairing: r does not divide Phi_12(p)", who);
-		{ int js[] = {1, 2, 3, 4, 6}; for (int i = 0; i < 5; i++) { mpz_powm_ui(t, RC.p, (unsigned long)js[i], RN); OBL(mpz_cmp_ui(t, 1), "%s: pairing: r divides p^%d - 1: embedding degree below 12", who, js[i]); } }
-		/* twist */
-		if (!select_pc(id)) {
+		/* the advertised embedding degree is the multiplicative order of p modulo r (any family) */
+		OBL(k >= 2, "%s: pairing: embedding degree %d advertised for a pairing-friendly curve", who, k);
+		if (k >= 2) { mpz_powm_ui(t, RC.p, (unsigned long)k, RN); OBL(!mpz_cmp_ui(t, 1), "%s: pairing: r does not divide p^%d - 1", who, k);
+			for (int q = 2; q <= k; q++) { if (k % q) continue; int prime = 1; for (int d = 2; d * d <= q; d++) if (q % d == 0) prime = 0; if (!prime) continue; mpz_powm_ui(t, RC.p, (unsigned long)(k / q), RN); OBL(mpz_cmp_ui(t, 1), "%s: pairing: r divides p^%d - 1: the embedding degree is below the advertised %d", who, k / q, k); } }
+		(void)P4;
+		/* twist, tower and pairing value: for the family the pairing layer of this build serves with k = 12; the other families' builds are judged by the
+		 * family job of C04 (e(G1, G2) non-degenerate, of order r in a validated reference tower, generators valid) */
+		if (k != 12 || RLC_GT_EMBED != 12) vf_statf_add(1, "x.pairing_layer_obligations_left_to_family_job.k%d", k);
+		else if (!select_pc(id)) {
 #if FP_PRIME == 446 && !defined(FP_QNRES)
 			const char *kf = id == B12_P446 ? "L42-b12-p446-twist-needs-qnres" : NULL;
 #else
